@@ -170,6 +170,9 @@ class Cls(object):
                 return c.attrs[name], c
         return None, None
 
+    def has(self, name):
+        return any(name in c.attrs for c in self.mro())
+
     def __call__(self, *args, **kwargs):
         if self.is_enum:
             for m in self.attrs.values():
@@ -880,7 +883,7 @@ class Interp(object):
                     c.reads.add((id(o), name))
                 return o.fields[name]
             a, owner = o.cls.lookup(name)
-            if a is None:
+            if a is None and owner is None:
                 if name == '__class__':
                     return o.cls
                 if name == '__dict__':
@@ -901,7 +904,7 @@ class Interp(object):
             return a
         if isinstance(o, Cls):
             a, owner = o.lookup(name)
-            if a is None:
+            if a is None and owner is None:
                 if name == '__name__':
                     return o.name
                 raise PyRaise('AttributeError', "type object '%s' has no attribute '%s'" % (o.name, name), self.where)
@@ -1625,7 +1628,7 @@ def truth(v):
 
 
 def _is_scalar(x):
-    return isinstance(x, (SV, Fraction, int, float, bool, sym.FPV)) and not isinstance(x, (ArrBase,))
+    return isinstance(x, (SV, Fraction, int, float, bool, sym.FPV, sym.Inf)) and not isinstance(x, (ArrBase,))
 
 
 def _identical(a, b):
